@@ -270,6 +270,12 @@ func runC14(c *eng.Ctx, tier string) {
 			if !isF || !eng.IsNamed(fr.Owner, "server", "Server") {
 				return
 			}
+			// (metric counters held by value -- expvar.Int and the like -- are
+			// atomic, write-only for request handling and never read back into
+			// a response: the same role as the counters held by pointer)
+			if nt, isN := eng.Deref(fa.Type()).(*types.Named); isN && nt.Obj().Pkg() != nil && nt.Obj().Pkg().Path() == "expvar" {
+				return
+			}
 			var uses func(addr ssa.Value, depth int)
 			uses = func(addr ssa.Value, depth int) {
 				for _, r := range *addr.Referrers() {
